@@ -35,7 +35,7 @@ MANIFEST_INFO = {
     "engine": "D",
     "design_ref": "DESIGN.md section 5, C14",
     "technique": "stateless deviation-bounded DFS over stage behaviours of generated Deferred-returning TestCases run by the real AsynchronousDeferredRunTest on the real SelectReactor under a virtual clock; timeout placement, tie order and interrupt instant enumerated; async lifecycle timeline model",
-    "level_text": "Every program whose setUp/test/tearDown/0-2 cleanups each pick one of 21 behaviours (return, register a further cleanup (also from inside a cleanup), raise error/failure/skip/SystemExit, Deferred failing with SystemExit, Deferred firing a few zero-delay reactor iterations after its due time, Deferred already fired / firing or failing after 1 or 2 time units / never firing, leaving a delayed call, logging an error with or without flushing it, dropping a failed Deferred) with at most 3 (quick) / 4 (thorough, default logging options; 3 for the other three combinations) deviating stages, for 6 timeouts placed before/at/after the stage boundaries (and a timeout of 0), with <=1 interrupt at any reactor instant, both runner variants and all four logging-option combinations, is executed; bracket, success-iff-clean, error on timeout/interrupt (+stop), an unsuccessful outcome whenever a stage raised a failure or an error (no masking by a later skip), a timed-out run ending at the timeout instant, stage sequencing by virtual timestamps, reactor cleanliness and log-observer restoration are checked on every execution.",
+    "level_text": "Every program whose setUp/test/tearDown/0-2 cleanups each pick one of 21 behaviours (return, register a further cleanup (also from inside a cleanup), raise error/failure/skip/SystemExit, Deferred failing with SystemExit, Deferred firing a few zero-delay reactor iterations after its due time, Deferred already fired / firing or failing after 1 or 2 time units / never firing, leaving a delayed call, logging an error with or without flushing it, dropping a failed Deferred) with at most 3 (quick) / 4 (thorough, default logging options; 3 for the other three combinations) deviating stages, for 6 timeouts placed before/at/after the stage boundaries (and a timeout of 0), with <=1 interrupt at any reactor instant, both runner variants and all four logging-option combinations, is executed; bracket, success-iff-clean, error on timeout/interrupt (+stop), an unsuccessful outcome whenever a stage raised a failure or an error (no masking by a later skip), a timed-out run ending at the timeout instant, stage sequencing by virtual timestamps, reactor cleanliness and log-observer restoration are checked on every execution; after every abandoned run the same test object is run again (nothing left over from the first run may run), and a reactor loop that could never end is reported as a hang.",
     "level_note": "Virtual clock on the real SelectReactor; garbage collection of a dropped failed Deferred relies on CPython reference counting (deterministic); when the chain completes at exactly the timeout instant the verdict must follow the tie order chosen for that execution (timeout first: error; Deferred first and nothing left to wait for: success).",
 }
 
